@@ -214,8 +214,13 @@ def e_redeclared_property(doc, rnd):
         {"name": "VerifStrictRegistration", "properties": [prop("documentSelector", ref("DocumentSelector"))], "extends": [ref("TextDocumentRegistrationOptions")]},
         {"name": "VerifTrackedParams", "properties": [prop("workDoneToken", ref("ProgressToken")), prop("command", S)], "mixins": [ref("WorkDoneProgressParams")]},
         {"name": "VerifMaybeVersioned", "properties": [prop("version", I, True)], "extends": [ref("VersionedNotebookDocumentIdentifier")]},
+        # a structure BELOW a re-declaration that does not re-declare the property itself: two ancestors declare it, the nearest wins
+        # (added after seed C04-13)
+        {"name": "VerifStrictLeaf", "properties": [prop("leafNote", S, True)], "extends": [ref("VerifStrictRegistration")]},
+        {"name": "VerifTrackedLeaf", "properties": [prop("leafFlag", B)], "extends": [ref("VerifTrackedParams")]},
+        {"name": "VerifMaybeLeaf", "properties": [], "mixins": [ref("VerifMaybeVersioned")]},
     ]
-    struct(doc, optional_sites(doc, rnd, 1)[0])["properties"] += [prop("verifStrict", ref("VerifStrictRegistration"), True), prop("verifTracked", ref("VerifTrackedParams"), True), prop("verifMaybe", ref("VerifMaybeVersioned"), True)]
+    struct(doc, optional_sites(doc, rnd, 1)[0])["properties"] += [prop("verifStrict", ref("VerifStrictRegistration"), True), prop("verifTracked", ref("VerifTrackedParams"), True), prop("verifMaybe", ref("VerifMaybeVersioned"), True), prop("verifStrictLeaf", ref("VerifStrictLeaf"), True), prop("verifTrackedLeaf", ref("VerifTrackedLeaf"), True), prop("verifMaybeLeaf", ref("VerifMaybeLeaf"), True)]
 
 
 def e_enums(doc, rnd):
